@@ -255,6 +255,12 @@ def run(ctx):
 def d2_guard_normalises(ctx, guard, gname, gmode):
     raising_ifs = [n for n in own_nodes(guard.node) if isinstance(n, ast.If) and
                    (always_raises(n.body) or always_raises(n.orelse))]
+    # also tests that decide a raise without enclosing it (`if <not protected>: continue` followed by `raise`)
+    from ..pathcond import branch_cond_nodes
+    for r_ in (n for n in own_nodes(guard.node) if isinstance(n, ast.Raise)):
+        for ifn, _ in branch_cond_nodes(guard, r_):
+            if ifn not in raising_ifs:
+                raising_ifs.append(ifn)
     if not raising_ifs:
         raise AnalysisError('guard has no raising test')
     # D3: the mode condition
